@@ -5,7 +5,10 @@ mod iters;
 use tvh_common::*;
 
 fn main() {
-    silence_panics();
+    guarded_main(run);
+}
+
+fn run() {
     let args = Args::from_env();
     match args.cmd() {
         "replay-iter" => iters::replay(&args),
